@@ -157,16 +157,19 @@ PROPS = {
         explanation='ownership/frame contracts decided syntactically for all functions; the value-equality half of the property is not decided',
         technique='deductive frame (ownership) contracts over the real sources: every store into context state is checked against the function\'s own context'),
     'C29': dict(
-        title='root finders return genuine roots', level='proof', engines=['guards'], no_units=True,
+        title='root finders return genuine roots', level='other', engines=['guards', 'boundedprops'], no_units=True,
         claim='Control/data-flow contracts decided for all inputs by enumerating every path of the real function bodies '
               '(unmodelled data havocked): (1) with verify=True every value findroot returns at its final `return x` went '
               'through the check `not norm(f(*xl))**2 > tol` on the same x on that path, the only other returns being the '
               'starting point when norm(f(x0)) == 0; (2) MNewton binds a user-supplied df / d2f keyword to the attribute '
-              'that the iteration uses. Not applicable (analytic): convergence and accuracy of the solvers, bracketing '
-              'containment, multiple-root accuracy 2^(4-p/m), ordering of polyroots.',
+              'that the iteration uses. Bounded (exact construction): polyroots on real polynomials built from chosen simple real '
+              'roots and conjugate pairs returns deg roots, each near a chosen one, real roots first and complex roots as adjacent '
+              'conjugate pairs; known finding F21 (pairs with equal |imaginary part| interleave). Not applicable (analytic): '
+              'convergence and accuracy of the solvers, bracketing containment, multiple-root accuracy 2^(4-p/m).',
         note='f and norm are assumed deterministic; a NaN residual makes `>` false and is the one input class for which '
              'the clause is not implied. The precision frame of findroot is decided under C11.',
-        technique='deductive control-flow contracts: guard-dominates-return and keyword-dataflow clauses over all paths of the real code'),
+        explanation='deductive control-flow contracts for findroot / MNewton; the ordering of polyroots is covered only by the bounded tier',
+        technique='deductive control-flow contracts: guard-dominates-return and keyword-dataflow clauses over all paths of the real code + bounded native check of polyroots ordering'),
     'C35': dict(
         title='integer relation results are genuine relations', level='proof', engines=['guards'], no_units=True,
         claim='Control-flow contract of pslq, for all inputs: every vector returned went through `err < tol` and '
@@ -176,15 +179,18 @@ PROPS = {
         note='Only which checks dominate which returns is decided; the tested data is not interpreted.',
         technique='deductive control-flow contract: guard-dominates-return over all paths of the real pslq body'),
     'C33': dict(
-        title='cached state never leaks stale or wrong results', level='proof', engines=['cachekeys'], no_units=True,
+        title='cached state never leaks stale or wrong results', level='proof', engines=['cachekeys'],
         claim='Cache-protocol contracts decided on the real code by data-flow analysis (for all inputs, no execution): '
               '(K) key determines value for the stores into QuadratureRule.standard_cache / transformed_cache, memoize\'s '
               'table (precision stored with the value), log_int_cache, log_taylor_cache, atan_taylor_cache, cos_sin_cache: '
               'every input (parameter or working precision) the stored value depends on is determined by the key, and read '
               'sites use the same key; (I) every _matrix method that mutates the private data resets the cached LU '
               'decomposition (the one method documented as unsafe is exempt by name); (P) mpf_bernoulli hands out a freshly '
-              'computed number exactly like a cached one. Not covered: constants/constant_memo (C17), hyp_summators, odefun '
-              'series data, "aborted by an exception at any point" for these tables, equality of results up to rounding.',
+              'computed number exactly like a cached one; (E) the constant cache (constant_memo, verified as a VC unit from its '
+              'real source with the wrapped routine as an abstract object that may raise anything): the value returned depends '
+              'on the requested precision only, the cache invariant is kept, and when the wrapped routine is aborted by an '
+              'exception the cache is left exactly as it was. Not covered: hyp_summators, odefun series data, "aborted by an '
+              'exception at any point" for the other tables, equality of results up to rounding.',
         note='Backward slicing is flow-insensitive up to textual order (over-approximation: a clause that holds may in principle '
              'be reported as violated, never the reverse, for the dependency relation as modelled); calls are treated as '
              'functions of their arguments, receiver and working precision.',
